@@ -159,6 +159,9 @@ def write_pdf(pages: list[dict], *, info: dict[str, str] | None = None, compress
             b"<< /Type /Page /Parent 2 0 R /MediaBox [0 0 " + _num(pw) + b" " + _num(ph) + b"] /Resources "
             + res + b" /Contents %d 0 R >>" % cont_num
         )
+        if page.get("no_contents") and not lines and not images:
+            # a blank page as writers insert it: no /Contents entry at all (the content stream object stays in the file, unreferenced)
+            objs[page_num] = b"<< /Type /Page /Parent 2 0 R /MediaBox [0 0 " + _num(pw) + b" " + _num(ph) + b"] /Resources << >> >>"
 
     objs[1] = b"<< /Type /Catalog /Pages 2 0 R >>"
     objs[2] = b"<< /Type /Pages /Kids [" + b" ".join(b"%d 0 R" % k for k in kids) + b"] /Count %d >>" % len(kids)
